@@ -40,6 +40,9 @@ type c06Event struct {
 	Kind string `json:"kind"`           // "step" | "nmi" | "int"
 	Code []int  `json:"code,omitempty"` // step: bytes poked at PC before stepping
 	Data []int  `json:"data,omitempty"` // int: request data
+	// During > 0 (nmi, int): the request is not set by the host between Steps but raised by a device callback at
+	// the During-th bus access of the following Step (which may itself be the acknowledge of an earlier request)
+	During int `json:"during,omitempty"`
 }
 
 type c06Case struct {
@@ -88,10 +91,18 @@ func c06Play(rig *lockRig, c *c06Case) c06Result {
 	for i, ev := range c.Events {
 		switch ev.Kind {
 		case "nmi":
-			rig.raise(ref.Request{NMI: true})
+			if ev.During > 0 {
+				rig.raiseDuring(ev.During, ref.Request{NMI: true})
+			} else {
+				rig.raise(ref.Request{NMI: true})
+			}
 			continue
 		case "int":
-			rig.raise(ref.Request{Data: toBytes(ev.Data)})
+			if ev.During > 0 {
+				rig.raiseDuring(ev.During, ref.Request{Data: toBytes(ev.Data)})
+			} else {
+				rig.raise(ref.Request{Data: toBytes(ev.Data)})
+			}
 			continue
 		}
 		for k, b := range ev.Code {
@@ -117,6 +128,9 @@ func c06Play(rig *lockRig, c *c06Case) c06Result {
 		}
 		if o.variant != "" {
 			res.variants[o.variant]++
+		}
+		if o.raisedDuring && o.accepted {
+			res.variants["device-raises-request-during-acknowledge"]++
 		}
 		if o.accepted {
 			res.accepted++
@@ -235,6 +249,20 @@ func TestC06Matrix(t *testing.T) {
 				if parked {
 					c.Events[1].Code = nil // the HALT stays where the CPU is parked
 				}
+				if (d.memSeed>>20+uint64(si))%4 == 0 {
+					// while this request is acknowledged (or refused) a memory-mapped device raises another one
+					ev2 := c06Event{Kind: "nmi", During: 1 + int(d.memSeed>>24)%4}
+					if d.memSeed>>28&1 == 0 {
+						ev2 = c06Event{Kind: "int", During: ev2.During}
+						if d.memSeed>>29&1 == 0 {
+							ev2.Data = []int{int(d.ops[1]) &^ 1}
+						}
+					}
+					c.Events = []c06Event{c.Events[0], ev2, c.Events[1], {Kind: "step", Code: []int{0x00}}}
+					if parked {
+						c.Events[3].Code = nil
+					}
+				}
 				run(&c, uint64(ctl)<<16|uint64(si))
 				if focus != nil {
 					return
@@ -314,6 +342,12 @@ func TestC06Histories(t *testing.T) {
 				if o.variant != "" {
 					col.Label("variant:" + o.variant)
 				}
+				if o.raisedDuring {
+					col.Label("request-raised-by-device-during-step")
+					if o.accepted {
+						col.Label("request-raised-by-device-during-acknowledge")
+					}
+				}
 				hist = stats.Hash(hist, uint64(len(code)), uint64(code[0]))
 				if o.accepted {
 					accepted++
@@ -346,6 +380,20 @@ func TestC06Histories(t *testing.T) {
 				c.Events = append(c.Events, c06Event{Kind: "int", Data: data})
 				rig.raise(ref.Request{Data: toBytes(data)})
 				hist = stats.Hash(hist, 0xBB, uint64(len(data)))
+			},
+			"raisedByDevice": func(t *rapid.T) {
+				if dead {
+					return
+				}
+				ev := c06Event{Kind: "nmi", During: rapid.IntRange(1, 5).Draw(t, "atAccess")}
+				if rapid.Bool().Draw(t, "maskable") {
+					ev.Kind, ev.Data = "int", intData(t)
+					rig.raiseDuring(ev.During, ref.Request{Data: toBytes(ev.Data)})
+				} else {
+					rig.raiseDuring(ev.During, ref.Request{NMI: true})
+				}
+				c.Events = append(c.Events, ev)
+				hist = stats.Hash(hist, 0xCC, uint64(ev.During))
 			},
 			"": func(t *rapid.T) {},
 		})
